@@ -285,6 +285,8 @@ func init() {
 		},
 	}
 	registerFEPrelude()
+	registerHeapPrelude()
+	registerHeapPrelude2()
 }
 
 func (x *Exec) nextName(name string) string {
